@@ -127,6 +127,7 @@ func TestRecord(t *testing.T) {
 	stepsPerRun := vfutil.EnvInt("VERIF_STEPS", 30)
 	acts := map[string]int{}
 	for ri := 0; ri < runs; ri++ {
+		dbs = recycleDBs(t, dbs, ri)
 		r, err := newRun(w, dbs, recordCfg, rep)
 		if err != nil {
 			t.Fatal(err)
@@ -195,6 +196,8 @@ func TestRecord(t *testing.T) {
 					if recordCfg[s].Acc == "R" {
 						st.Act, st.Fault = "LocalSetDenied", fault{Point: "none"}
 					}
+				case k == 8 && (r.ex == nil || (s != r.exC && s != r.exR)):
+					st = step{Act: "Restart", S: s, Fault: fault{Point: "none"}}
 				case phase == "":
 					p := names[rnd.Intn(3)]
 					if p == s {
